@@ -369,6 +369,14 @@ Iter ==
                        IN V("C12.loop-wake", Ev.wake = (IF Ev.ntm = 0 THEN 0 - 1 ELSE IF tm[1] > T THEN tm[1] ELSE T + 1),
                             <<"the wake-up asked for is not the earliest timer", Ev.wake, IF Ev.ntm = 0 THEN 0 - 1 ELSE tm[1], T>>)
                           \cup UNION {V("C12.loop-cover", hasTimer(r.t), <<"a queued re-run without a timer of its own", r.k, r.t, T>>) : r \in rr}
+                          \* the second announcement and the goodbye repeat that are owed are queued for exactly their due time
+                          \cup UNION {V(IF o.kind = "ann2" THEN "C07.loop-ann2" ELSE "C09.loop-bye2",
+                                        \E r \in rr : /\ r.t = o.due
+                                                      /\ \/ (o.kind = "ann2" /\ r.k = "RegisterResend")
+                                                         \/ (o.kind = "bye2" /\ r.k = "UnregisterResend"),
+                                        <<IF o.kind = "ann2" THEN "no second announcement is queued for one second after the first"
+                                          ELSE "no goodbye repeat is queued for 120 ms after the goodbye", o.fnk, o.due, T>>)
+                                      : o \in {x \in O2 : x.kind \in {"ann2", "bye2"} /\ x.due > T}}
      IN /\ viol' = Cap(viol, SpinV \cup s.v \cup vProbe \cup vAnn \cup vBye \cup vOwed \cup vQ \cup vQuiet \cup vWake \cup vRename \cup vNoTake \cup vLoop)
         /\ lost' = lost \cup conflictNames
         /\ ncseen' = ncseen \cup ncNow
@@ -377,6 +385,8 @@ Iter ==
         /\ hits' = hits \cup (IF Probe # {} THEN {"C07.probe"} ELSE {})
                         \cup (IF "loop" \in DOMAIN Ev /\ Ev.loop /\ Ev.ntm > 0 THEN {"C12.loop-wake"} ELSE {})
                         \cup (IF "loop" \in DOMAIN Ev /\ Ev.loop /\ Len(Ev.rr) > 0 THEN {"C12.loop-cover"} ELSE {})
+                        \cup (IF "loop" \in DOMAIN Ev /\ Ev.loop /\ Ev.alive /\ \E o \in O2 : o.kind = "ann2" /\ o.due > T THEN {"C07.loop-ann2"} ELSE {})
+                        \cup (IF "loop" \in DOMAIN Ev /\ Ev.loop /\ Ev.alive /\ \E o \in O2 : o.kind = "bye2" /\ o.due > T THEN {"C09.loop-bye2"} ELSE {})
                         \cup (IF Annc # {} THEN {"C07.announce"} ELSE {})
                         \cup (IF Bye # {} THEN {"C09.goodbye"} ELSE {})
                         \cup (IF dueBye2 # {} THEN {"C09.repeat"} ELSE {})
